@@ -238,8 +238,13 @@ TEXTS = {
                 "node n+k, live and merged nodes together without repetition exactly 0..n+|merges|-1, leaves of the live nodes = the n inputs; "
                 "with one node left: n-1 merges and last size n); about the transcription — the Combinations iterator state machine yields "
                 "exactly the remaining live pairs for every fuel, Combinations::new yields every unordered pair once, closest_clusters returns "
-                "a minimum of the matrix; an accepted leaf order is a permutation. PARTIAL: the loop invariant of the transcription itself is "
-                "not a theorem; the replay additionally checks per merge that no live pair is closer, the reported distance, and the "
+                "a minimum of the matrix; an accepted leaf order is a permutation. THE LOOP ITSELF (C17_clustering_run, every number type, every "
+                "distance function, all four methods): a successful run on n >= 1 sets is a sequence of merges, each joining the entry "
+                "closest_clusters returns for the matrix of THAT moment, between two distinct live nodes, with the sizes added; the matrix "
+                "holds at every moment exactly the pairs of live nodes; the run ends after exactly n-1 merges with one live node. "
+                "C17_distances_follow_method: for single / complete / average the distance of every other live node to the new cluster is "
+                "min / max / mean of its distances to the two merged nodes and all other distances are kept. PARTIAL: for union linkage the "
+                "new distances (user distance on the union, in callback order) are executed, not proved; the replay additionally checks per merge that no live pair is closer, the reported distance, and the "
                 "method-specific update (min / max / mean / user distance on the union); the transcription is diffed bit for bit.",
         "design_ref": "DESIGN.md §4 C17, §9",
         "note": NOTE_COMMON + "Axioms: the four standard-library axioms behind Coq Reals (via Flocq's binary32 in the replay's distance type). HashMap order: on a tie the crate may merge another minimal pair than the model; such runs are decided by the replay only.",
